@@ -21,7 +21,7 @@
 (***************************************************************************)
 EXTENDS Integers, Sequences, FiniteSets, TLC, SequencesExt, Json
 
-CONSTANTS Book,       \* the resolved book: [food -> Seq(<<element, amount>>)]
+CONSTANTS BookInit,   \* the resolved book of the exhaustive configurations: [food -> Seq(<<element, amount>>)]
           Foods,      \* names that can be logged
           Qtys,       \* quantities that can be logged
           MaxEntries, \* entries per day
@@ -29,7 +29,8 @@ CONSTANTS Book,       \* the resolved book: [food -> Seq(<<element, amount>>)]
           Element,    \* the element of the single-element reports
           Dump
 
-VARIABLES log,      \* the selected days, in file order (never changes)
+VARIABLES Book,     \* the resolved book (never changes within a run; a variable so that traces can bring their own)
+          log,      \* the selected days, in file order (never changes)
           d,        \* days processed so far
           reg,      \* register: one chunk per processed day
           csvlog,   \* csv log rows
@@ -42,7 +43,7 @@ VARIABLES log,      \* the selected days, in file order (never changes)
           balTotal, \* bal -s Element grand total
           flushed   \* Flush has run
 
-vars == <<log, d, reg, csvlog, single, food, totAcc, qtyAcc, byFood, unres, balTotal, flushed>>
+vars == <<Book, log, d, reg, csvlog, single, food, totAcc, qtyAcc, byFood, unres, balTotal, flushed>>
 
 -----------------------------------------------------------------------------
 (* helpers                                                                  *)
@@ -140,6 +141,7 @@ EntryLists == UNION {[1..n -> Foods \X Qtys] : n \in 0..MaxEntries}
 NoSecondDay == <<"none">>
 
 Init ==
+  /\ Book = BookInit
   /\ \E e1 \in EntryLists, e2 \in Day2Set \cup {NoSecondDay} :
         log = IF e2 = NoSecondDay THEN << [date |-> 1, es |-> e1] >>
               ELSE << [date |-> 1, es |-> e1], [date |-> 2, es |-> e2] >>
@@ -162,12 +164,12 @@ Process ==
         /\ unres' = unres \cup {m[i][1] : i \in {j \in 1..Len(m) : m[j][1] \notin DOMAIN Book}}
         /\ balTotal' = BalSingleAdd(balTotal, day)
   /\ d' = d + 1
-  /\ UNCHANGED <<log, flushed>>
+  /\ UNCHANGED <<Book, log, flushed>>
 
 Flush ==
   /\ d = Len(log) /\ ~flushed
   /\ flushed' = TRUE
-  /\ UNCHANGED <<log, d, reg, csvlog, single, food, totAcc, qtyAcc, byFood, unres, balTotal>>
+  /\ UNCHANGED <<Book, log, d, reg, csvlog, single, food, totAcc, qtyAcc, byFood, unres, balTotal>>
 
 Done == flushed /\ UNCHANGED vars
 Next == Process \/ Flush \/ Done
